@@ -3,3 +3,25 @@ NOTE = "Trusted base: the Go reference model (/verif/mc/model), the driver's abs
 claim("C04", E1, "explicit-state bounded exhaustive exploration of operation histories on the implementation, reference-model oracle",
       "Every history over the relation alphabet (<=5 entities, 2-3 targets, 1-2 relation components, single and batch removal of targets, Shrink, Reset) up to depth 4 (quick) / 5 (thorough) after 6 preludes is executed on the real World; after every history all entities' liveness, components, values and relation targets, a family of relation-filtered queries and all persistent (cached and uncached) filters are compared with the model; any panic of a valid call is a violation.",
       NOTE, "DESIGN.md 3/C04")
+T1 = "explicit-state bounded exhaustive exploration of operation histories on the implementation, reference-model oracle"
+claim("C01", E1, T1,
+      "Every history up to depth 4 (quick) / 5 (thorough) over five alphabets (plain moves via MapN, Map, ExchangeN and the ID-based API; pointer-bearing/zero-size/large components with uninitialised adds; relation moves; batch moves; Reset and Shrink interleaved), from 3 non-initial preludes, for capacities {1,2,8} and component-ID offsets {0,62,63,126,190,250}, is executed on the real World; after every history every entity's liveness, component set, every value (Unsafe.Get, Map.Get pointer identity, query Get) and relation target is compared with the model, so a change to any other entity is caught too.",
+      NOTE, "DESIGN.md 3/C01")
+claim("C02", E1, T1,
+      "Every history up to depth 5 (quick) / 7 (thorough) over all creation and removal forms applied to every alive entity (so every recycle order of <=4 ids), with Reset, from the empty world and a prelude with a non-trivial free list, capacities {1,2}: handles pairwise distinct since the last Reset, Alive(h) of every handle ever issued, Stats().Entities.Used and the Filter0 count agree with creations minus removals.",
+      NOTE, "DESIGN.md 3/C02")
+claim("C03", E1, T1,
+      "In every world state reachable by histories up to depth 3 (quick) / 4 (thorough) of the relation/batch alphabet from 3 preludes (tables emptied, freed by Shrink, recycled, targets dying, ids recycled) a family of ~270 filters (all with-sets over 4 components x none/one excluded/exclusive x relation constraints none/zero/#0/#1, in the filter and per query, typed Filter0-4 with With and UnsafeFilter) and persistent filters with dying targets are evaluated: exact multiset, once each, Count, EntityAt order, Get pointer identity with random access, values, GetRelation, unlocked afterwards. ID offsets {0,62} quick, all five thorough. Arities above 4 are covered by C14.",
+      NOTE, "DESIGN.md 3/C03")
+claim("C05", E1, T1,
+      "Every history up to depth 4 (quick) / 5 (thorough) over the relation alphabet plus Register/Unregister of three filters (plain, fixed relation target, exclusive), queries opened/advanced/closed in two slots (so (un)registration happens while queries of the same and of other filters are open), Shrink and Reset; in every state every created filter is evaluated with and without per-query targets against the model; batch selection through batch callbacks; Stats().CachedFilters.",
+      NOTE, "DESIGN.md 3/C05")
+claim("C06", E1, T1,
+      "Every history up to depth 3 (quick) / 5 (thorough) over all seven batch operations (through MapN, Map and ExchangeN; value, callback and nil-callback forms; cached and uncached batch filters; with per-batch relation targets; several source tables, destinations that already hold rows) mixed with single moves: callback exactly once per model-selected entity, values written through callback pointers are read back from that entity, resulting world equals the fold of the single-entity operation, everything else untouched.",
+      NOTE, "DESIGN.md 3/C06")
+claim("C15", E1, T1,
+      "Every history up to depth 4 (quick) / 5 (thorough) over the relation and batch alphabets with Shrink() and repeated Shrink(0) as ordinary operations at every position (also with open queries and registered filters): the full model comparison (entities, values, relations, filter family, cached filters, open queries) holds after the call and after every later operation; after an unlocked unbounded Shrink every table satisfies Size <= Capacity <= max(initial, nextPow2(Size)) and free tables hold at most their initial capacity; repeated limited calls terminate.",
+      NOTE + " Time-limited Shrink is exercised with limit 0 only; a virtual clock answer pattern is not enumerated.", "DESIGN.md 3/C15")
+claim("C19", E1, T1,
+      "Every history up to depth 4 (quick) / 5 (thorough) over the relation and batch alphabets with Stats() as an ordinary operation at every position: all stated invariants of World.Stats() (entity counts vs model, archetype and table sizes vs model population per component set, capacity and memory products, distinct component sets, filters/observers/locked) and equality of the incrementally updated statistics with those of a twin world replaying the history with a single final Stats() call.",
+      NOTE, "DESIGN.md 3/C19")
